@@ -12,12 +12,17 @@ RULE = ("two-level instruction macro programs: 0-2 parameters, local labels used
         "result. plus injected faults (arity, unknown macro, recursion). non-trivial = a macro with parameters is expanded twice "
         "or a local label is used")
 EXHAUSTIVE = {"quick": False, "thorough": False}
-ASSUMPTIONS = ["random label suffixes never collide with each other or with user labels (rand collision-freedom)"]
+ASSUMPTIONS = ["the whole-language text family FullText is a structured description of source text (Asm/FullText.lean); the model itself renders members of it for the real assembler (`fullgen` stream)", "random label suffixes never collide with each other or with user labels (rand collision-freedom)"]
 
 
 def cases(rng, tier):
     n = 400 if tier == "quick" else 6000
-    return family_cases(rng, [("macros", G.gen_macros)], n, faults=0.2)
+    from props.asm_common import modelgen_cases
+    cs = family_cases(rng, [("macros", G.gen_macros)], n, faults=0.2)
+    # whole-language texts generated and rendered by the model (FullText family: macro definitions and invocations,
+    # expression macros, calls, $variables, selector/topic, directives, any layout)
+    cs += modelgen_cases(rng, "fullgen", 200 if tier == "quick" else 3000, "fulltext", sizes=(1, 2, 3, 4, 6, 9))
+    return cs
 
 
 def nontrivial(case, reply):
@@ -31,7 +36,10 @@ MANIFEST = {
             "substituted simultaneously wherever they occur — compound operands, %push, arguments of nested invocations and of "
             "expression macro calls — with the arguments not re-examined), the suffix counter advanced; same items, hence same bytes or "
             "same failure. flattenAll iterates this; definitions are collected before flattening. T-asm (C13) ties flatten to "
-            "Assembler::push / expand_macro.",
+            "Assembler::push / expand_macro. TEXT (C10_text): for the WHOLE surface language — %macro definitions with bodies, invocations, "
+            "expression macros, $variables, calls, selector/topic, directives with escaped paths, any legal layout — every structured "
+            "program text goes through the full pest interpreter over the regenerated grammar and the walk of parse_asm to exactly one "
+            "node per statement (definition: name, parameters, body ops; invocation: name, argument expressions).",
     "note": "Trusted: Lean kernel; Asm/Assemble.lean (expand_macro as repaired) tied by the differential run; freshness of the random "
             "suffixes (no collision with user labels) is an assumption about rand; the statement is about item lists; GIVEN freshness, the bytes "
             "do not depend on the chosen suffixes (C02_suffix_independent); every case is also assembled twice by the real code.",
